@@ -268,10 +268,7 @@ class WSStream:
         if message is None:  # ASGI App has finished sending messages
             # Cleanup if required
             if self.state == ASGIWebsocketState.HANDSHAKE:
-                await self._send_error_response(500)
-                await self.config.log.access(
-                    self.scope, {"status": 500, "headers": []}, time() - self.start_time
-                )
+                await self._send_error_response(500)  # This logs the access
             elif self.state == ASGIWebsocketState.CONNECTED:
                 await self._send_wsproto_event(CloseConnection(code=CloseReason.INTERNAL_ERROR))
             await self.send(StreamClosed(stream_id=self.stream_id))
